@@ -283,7 +283,7 @@ R_Next(r) == /\ rpc[r] = "next"
                 ELSE IF Cardinality(reg) # rsize[r]
                      THEN rpc' = [rpc EXCEPT ![r] = "done"] /\ rexc' = [rexc EXCEPT ![r] = TRUE] /\ UNCHANGED <<rcur, isreq>>
                 ELSE IF reg \subseteq rseen[r] THEN rpc' = Finished(r) /\ UNCHANGED <<rexc, rcur, isreq>>
-                ELSE \E i \in reg \ rseen[r] :
+                ELSE LET i == CHOOSE x \in reg \ rseen[r] : \A y \in reg \ rseen[r] : x <= y IN      \* (insertion order)
                         /\ rcur' = [rcur EXCEPT ![r] = i] /\ isreq' = [isreq EXCEPT ![i] = TRUE]
                         /\ rpc' = [rpc EXCEPT ![r] = "waitif"] /\ UNCHANGED rexc
              /\ UNCHANGED <<rflag, stopping, lock, discAttr, discOpen, rdict, rseen, rsize, racc>>
